@@ -46,7 +46,7 @@ AI_ENVS = [
 AI_OK_ENVS = [{}, {"CODEMODDER_AZURE_OPENAI_API_KEY": "", "CODEMODDER_AZURE_OPENAI_ENDPOINT": ""},
               {"CODEMODDER_AZURE_LLAMA_API_KEY": "", "CODEMODDER_AZURE_LLAMA_ENDPOINT": ""}, {"CODEMODDER_OPENAI_API_KEY": ""},
               {"CODEMODDER_AZURE_OPENAI_API_KEY": ""}, {"CODEMODDER_AZURE_LLAMA_ENDPOINT": ""}]  # set-but-empty alone = unset
-RESULT_OPTS = ["--sarif", "--sonar-issues-json", "--sonar-hotspots-json", "--defectdojo-findings-json"]
+RESULT_OPTS = ["--sarif", "--sonar-issues-json", "--sonar-hotspots-json", "--defectdojo-findings-json", "--contrast-vulnerabilities-xml"]
 REPORT_FAULTS = ["enoent-parent", "eisdir", "open-eacces", "open-erofs", "open-enospc", "enospc-on-write", "short-write", "eio-on-write", "enospc-on-close"]
 
 SARIF_SEMGREP = {"version": "2.1.0", "runs": [{"tool": {"driver": {"name": "Semgrep OSS"}}, "results": []}]}
